@@ -23,9 +23,10 @@ from harness import C01
 FUNCTIONS_Q = ["processing.prepare_records_with_inconsistent_dt", "processing.check_nyquist_frequency", "processing.prepare_fft_settings",
                "processing.traditional_hvsr_processing", "processing.traditional_single_azimuth_hvsr_processing",
                "processing.traditional_rotdpp_hvsr_processing", "processing.azimuthal_hvsr_processing", "hvsr_curve.HvsrCurve._check_input"]
-STUBS = C01.STUBS + ["CrossHair contracts use stub records (objects with ns.dt_in_seconds / vt.n_samples) - the policy code itself is the real function"]
+STUBS = C01.STUBS + ["CrossHair contracts use stub records (objects with ns.dt_in_seconds / vt.n_samples) - the policy code itself is the real function",
+                      "np.argsort (default / unstable kind, concrete keys with ties) -> contract-allowed order with every run of equal keys reversed; replays also run the witness pattern repeated 16 times"]
 ASSUMPTIONS = ["floats as reals", "FFT length fixed through fft_settings={'n': N} for the alone/together comparison (as the property states)"]
-OUTSIDE = ["finite-ness when the smoothed vertical spectrum is exactly zero (degenerate division paths are listed, not claimed)", "more than 3 records (SYMX) / 4 records (CrossHair)"]
+OUTSIDE = ["finite-ness when the smoothed vertical spectrum is exactly zero (degenerate division paths are listed, not claimed)", "more than 3 records (SYMX) / 4 records (CrossHair) - except that a witness is also replayed as a 48-64 record list"]
 BOUNDS = {"quick": {"records": "2-3 (SYMX), 4 (CrossHair)", "time_steps": 2, "samples": 3, "n_fft": 4, "methods": 4, "policies": 3},
           "thorough": {"records": "2-3 (SYMX), 4 (CrossHair)", "time_steps": "2-3", "samples": 3, "n_fft": 4, "methods": 4, "policies": 3}}
 INSTANCE_TIMEOUT = {"quick": 230, "thorough": 700}
@@ -146,7 +147,7 @@ def run_rows(rep, tier, method, policy, nrec, ndt, check_perm=True):
                 continue
             alts.append(z3.And([Sym.lift(a) == Sym.lift(b) for r_, i in enumerate(kept) for a, b in zip(jr[r_], alone[i])]))
         rep.prove(ctx, f"{method}/{policy}: each curve equals the curve of that recording processed alone (same FFT length), in input order",
-                  z3.Not(z3.Or(alts)) if alts else z3.BoolVal(True), witness=W, key=f"row-independence:{method}")
+                  z3.Not(z3.Or(alts)) if alts else z3.BoolVal(True), witness=W, key=f"row-independence:{method}", real=True)
         if not check_perm:
             rep.sample({"method": method, "policy": policy, "dts": dts, "curves": len(jr)})
             continue
@@ -160,7 +161,7 @@ def run_rows(rep, tier, method, policy, nrec, ndt, check_perm=True):
                 continue
             alts.append(z3.And([Sym.lift(a) == Sym.lift(b) for r_, i in enumerate(kept) for a, b in zip(pr[r_], alone[perm[i]])]))
         rep.prove(ctx, f"{method}/{policy}: processing the list in another order gives the same curve for each recording",
-                  z3.Not(z3.Or(alts)) if alts else z3.BoolVal(True), witness=W, key=f"order-dependence:{method}")
+                  z3.Not(z3.Or(alts)) if alts else z3.BoolVal(True), witness=W, key=f"order-dependence:{method}", real=True)
         neg = [Sym.lift(x) < 0 for row in jr for x in row]
         rep.prove(ctx, f"{method}/{policy}: amplitudes are non-negative", neg, witness=W, key="negative-amplitude")
         rep.sample({"method": method, "policy": policy, "dts": dts, "curves": len(jr)})
@@ -251,25 +252,34 @@ def replay(spec):
             if raised != should:
                 return {"reproduced": True, "key": "nyquist-not-refused" if should else "nyquist-spurious-error", "detail": f"fc={spec['fc']} dts={spec['dts']} nyquist={fnyq}: raised={raised}"}
             return {"reproduced": False, "detail": "guard behaves as specified"}
-        dts = spec["dts"]
-        mk = lambda i: hvsrpy.SeismicRecording3C(*[hvsrpy.TimeSeries(np.array(spec["records"][i][c], dtype=float), dts[i]) for c in ("ns", "ew", "vt")])
-        n = len(dts)
-        joint = _rows(hvsrpy.process([mk(i) for i in range(n)], _st(hvsrpy, spec["method"], spec["policy"])))
-        alone = [_rows(hvsrpy.process([mk(i)], _st(hvsrpy, spec["method"], spec["policy"])))[0] for i in range(n)]
-        perm = list(range(1, n)) + [0]
-        jperm = _rows(hvsrpy.process([mk(i) for i in perm], _st(hvsrpy, spec["method"], spec["policy"])))
-        keeps = expected_kept(dts, spec["policy"])
-        if not any(len(k) == len(joint) for k in keeps):
-            return {"reproduced": True, "key": "curve-count-or-frequencies", "detail": f"{len(joint)} curves for dts {dts} under {spec['policy']}"}
-        close = lambda a, b: np.allclose(a, b, rtol=1e-9, atol=1e-12, equal_nan=True)
-        if not any(len(k) == len(joint) and all(close(joint[r], alone[i]) for r, i in enumerate(k)) for k in keeps):
-            return {"reproduced": True, "key": f"row-independence:{spec['method']}", "detail": f"{spec['method']}/{spec['policy']} dts={dts}: joint {joint.tolist()} vs alone {[a.tolist() for a in alone]}"[:400]}
-        keeps_p = expected_kept([dts[i] for i in perm], spec["policy"])
-        if not any(len(k) == len(jperm) and all(close(jperm[r], alone[perm[i]]) for r, i in enumerate(k)) for k in keeps_p):
-            return {"reproduced": True, "key": f"order-dependence:{spec['method']}", "detail": f"rotated list gives {jperm.tolist()} vs alone {[a.tolist() for a in alone]}"[:400]}
-        if (joint < 0).any():
-            return {"reproduced": True, "key": "negative-amplitude", "detail": str(joint.tolist())}
-        return {"reproduced": False, "detail": "rows agree"}
+        def attempt(dts, records):
+            mk = lambda i: hvsrpy.SeismicRecording3C(*[hvsrpy.TimeSeries(np.array(records[i][c], dtype=float), dts[i]) for c in ("ns", "ew", "vt")])   # noqa
+            n = len(dts)
+            joint = _rows(hvsrpy.process([mk(i) for i in range(n)], _st(hvsrpy, spec["method"], spec["policy"])))
+            alone = [_rows(hvsrpy.process([mk(i)], _st(hvsrpy, spec["method"], spec["policy"])))[0] for i in range(n)]
+            perm = list(range(1, n)) + [0]
+            jperm = _rows(hvsrpy.process([mk(i) for i in perm], _st(hvsrpy, spec["method"], spec["policy"])))
+            keeps = expected_kept(dts, spec["policy"])
+            if not any(len(k) == len(joint) for k in keeps):
+                return {"reproduced": True, "key": "curve-count-or-frequencies", "detail": f"{len(joint)} curves for dts {dts} under {spec['policy']}"[:300]}
+            close = lambda a, b: np.allclose(a, b, rtol=1e-9, atol=1e-12, equal_nan=True)   # noqa
+            if not any(len(k) == len(joint) and all(close(joint[r], alone[i]) for r, i in enumerate(k)) for k in keeps):
+                bad = [r for r, i in enumerate(keeps[0]) if len(keeps[0]) == len(joint) and not close(joint[r], alone[i])]
+                return {"reproduced": True, "key": f"row-independence:{spec['method']}", "detail": f"{spec['method']}/{spec['policy']} {n} records, dts={dts[:8]}{'...' if n > 8 else ''}: rows {bad[:6]} are not the curves of the records they stand for; joint {joint[:4].tolist()} vs alone {[a.tolist() for a in alone[:4]]}"[:500]}
+            keeps_p = expected_kept([dts[i] for i in perm], spec["policy"])
+            if not any(len(k) == len(jperm) and all(close(jperm[r], alone[perm[i]]) for r, i in enumerate(k)) for k in keeps_p):
+                return {"reproduced": True, "key": f"order-dependence:{spec['method']}", "detail": f"rotated list gives {jperm[:4].tolist()} vs alone {[a.tolist() for a in alone[:4]]}"[:400]}
+            if (joint < 0).any():
+                return {"reproduced": True, "key": "negative-amplitude", "detail": str(joint.tolist())[:300]}
+            return {"reproduced": False, "detail": "rows agree"}
+        res = attempt(spec["dts"], spec["records"])
+        if not res["reproduced"] and len(set(spec["dts"])) > 1:
+            # the same recordings as a longer list (each record listed 16 times, in the witness pattern): library routines whose
+            # behaviour on equal keys is unspecified (np.argsort with the default kind) act as in the solver's model only on long inputs
+            res = attempt(list(spec["dts"]) * 16, list(spec["records"]) * 16)
+            if res["reproduced"]:
+                res["detail"] = "(witness pattern repeated 16 times) " + res["detail"]
+        return res
     finally:
         C01._restore(P, T, saved)
 
